@@ -307,6 +307,14 @@ int world_queue_junk(int pool, int thr, int kbytes, int how) {
 	sim_yield("queue.junk.done");
 	return wr > 0 ? (int)wr : 0;
 }
+/* the packet of this message has been taken out of its queue by a worker (undamaged queues only) */
+int world_msg_was_read(const msg_rec *m) {
+	int k, t;
+	if (!m->q_known) return 0;
+	k = m->q_idx / (MAX_THR + 1); t = m->q_idx % (MAX_THR + 1);
+	if (W.q[k][t].damaged) return 0;
+	return m->q_off + 32 <= W.q[k][t].rd_off;
+}
 static int loss_excused(const msg_rec *m) {
 	int k, t;
 	queue_w *q;
